@@ -69,6 +69,7 @@ func propC15(g *G, n int) {
 			}
 			emit(0, "Decimal.Round", []string{xs, sI64(int64(g.pick(9) - 4)), sU64(uint64(g.mode()))})
 			emit(g.drm(), "Ldexp", []string{xs, sI64(int64(g.pick(21) - 10))})
+			emit(g.drm(), "Ldexp", []string{xs, sI64(g.i64())})
 			for _, y := range reps {
 				ys := y.String()
 				m := sU64(uint64(g.pick(6)))
@@ -97,7 +98,22 @@ func propC15(g *G, n int) {
 
 // arguments for exp-like functions: moderate magnitudes, thresholds, tiny, exact integers
 func (g *G) expArg() dec {
-	switch g.pick(10) {
+	switch g.pick(13) {
+	case 10: // far beyond the thresholds (the result is out of range; the exponent bookkeeping must still say so)
+		nd := 1 + g.pick(8)
+		return dec2(g.chance(0.5), g.coefLen(nd), 6176+2+g.pick(6)-nd+1)
+	case 11: // |x| between 20 and 1300, few decimals: results between 1e-560 and 1e560, where Expm1 aligns e^x against 1
+		v := int64(20*1000 + g.pick(1280*1000))
+		if g.chance(0.3) {
+			v = v / 1000 * 1000
+		}
+		return mk(g.chance(0.6), v, -3)
+	case 12: // every integer up to 1300 (word boundaries of the power-of-two ladder), also with a fraction
+		v := int64(g.pick(1300))
+		if g.chance(0.3) {
+			return mk(g.chance(0.5), v*10+int64(g.pick(10)), -1)
+		}
+		return mk(g.chance(0.5), v, 0)
 	case 0: // integers: small ones, and every integer around the places where a result leaves the format
 		if g.chance(0.5) {
 			base := []int64{6111, 6144, 6145, 6176, 6177, 6211, 20300, 20414, 20516, 20630, 14071, 14221}[g.pick(12)]
@@ -125,6 +141,11 @@ func (g *G) expArg() dec {
 	c := g.coefLen(nd)
 	tgt := g.pick(11) - 6
 	lo, hi := encodeDec(g.chance(0.5), c, clampExp(6176+tgt-nd+1))
+	return dec{lo, hi}
+}
+
+func dec2(neg bool, c *big.Int, bexp int) dec {
+	lo, hi := encodeDec(neg, c, clampExp(bexp))
 	return dec{lo, hi}
 }
 
